@@ -24,6 +24,7 @@ import (
 type parinitIn struct {
 	Par   bool             `json:"par"`
 	Scale int              `json:"scale"` // real time = configured time / scale
+	Frd   *int             `json:"fan_response_delay"` // fanResponseDelay (default 1)
 	Fans  []startupFanSpec `json:"fans"`
 	Db    []startupDbEntry `json:"db"`
 }
@@ -41,8 +42,11 @@ type parinitObs struct {
 
 var parinitCaseNo int
 
-// interval of the analysis of one fan: first device access (PWM / mode write, RPM read) before the first
-// regulation cycle up to the last device access or map/data save before it
+// interval of the analysis of one fan = every device access (PWM / mode write, RPM read) that is not part of
+// regulation and not part of handing the fan back (restorePwmEnabled), plus the map/data saves in between:
+//   - a controller that reached its first regulation cycle: up to that cycle;
+//   - a controller whose Run returned before: up to the END OF THE RUN (accesses by goroutines that outlive
+//     RunInitializationSequence belong to the analysis they continue).
 func (e *startupEnv) parinitInterval(fanId int) (bool, int, int) {
 	e.mu.Lock()
 	defer e.mu.Unlock()
@@ -51,8 +55,11 @@ func (e *startupEnv) parinitInterval(fanId int) (bool, int, int) {
 		if ev.Fan != fanId {
 			continue
 		}
-		if ev.Kind == "EVAL" || ev.Kind == "RET" {
+		if ev.Kind == "EVAL" {
 			break
+		}
+		if ev.Rst {
+			continue
 		}
 		dev := ev.Kind == "W" || ev.Kind == "E" || ev.Kind == "R"
 		if dev && first == 0 {
@@ -63,6 +70,33 @@ func (e *startupEnv) parinitInterval(fanId int) (bool, int, int) {
 		}
 	}
 	return first != 0, first, last
+}
+
+// parinitQuiesce waits until the given fans (whose Run has returned) have logged nothing for a while
+func (e *startupEnv) parinitQuiesce(ids []int, quiet time.Duration, max time.Duration) {
+	count := func() int {
+		e.mu.Lock()
+		defer e.mu.Unlock()
+		n := 0
+		for _, ev := range e.events {
+			for _, id := range ids {
+				if ev.Fan == id {
+					n++
+				}
+			}
+		}
+		return n
+	}
+	deadline := time.Now().Add(max)
+	lastN, lastChange := count(), time.Now()
+	for time.Now().Before(deadline) {
+		time.Sleep(10 * time.Millisecond)
+		if n := count(); n != lastN {
+			lastN, lastChange = n, time.Now()
+		} else if time.Since(lastChange) >= quiet {
+			return
+		}
+	}
 }
 
 func parinitRun(ctx *Ctx, in parinitIn) parinitObs {
@@ -80,6 +114,9 @@ func parinitRun(ctx *Ctx, in parinitIn) parinitObs {
 	defer env.close()
 	startupSetGlobals(in.Par)
 	configuration.CurrentConfig.FanResponseDelay = 1
+	if in.Frd != nil {
+		configuration.CurrentConfig.FanResponseDelay = *in.Frd
+	}
 	for _, f := range in.Fans {
 		env.addDevice(f)
 	}
@@ -101,6 +138,19 @@ func parinitRun(ctx *Ctx, in parinitIn) parinitObs {
 		}(i, f)
 	}
 	wg.Wait()
+	// controllers whose Run has returned (failed analysis): let whatever they left running finish
+	var returned []int
+	for i, p := range procs {
+		select {
+		case err := <-p.done:
+			p.done <- err
+			returned = append(returned, in.Fans[i].Id)
+		default:
+		}
+	}
+	if len(returned) > 0 {
+		env.parinitQuiesce(returned, 300*time.Millisecond, 20*time.Second)
+	}
 	for _, p := range procs {
 		p.stop()
 	}
@@ -141,7 +191,13 @@ func parinitCoq(in parinitIn, obs parinitObs) string {
 			ivs = append(ivs, "("+cZ(fo.Id)+", ("+cZ(fo.First)+", "+cZ(fo.Last)+"))")
 		}
 	}
-	return cRec("mkCase", cBool(in.Par), cList(fl), cList(db), cList(acts), cList(ivs))
+	var faulty []int
+	for _, f := range in.Fans {
+		if f.Fault == "pwm-write" || f.Fault == "rpm-read" {
+			faulty = append(faulty, f.Id)
+		}
+	}
+	return cRec("mkCase", cBool(in.Par), cList(fl), cList(db), cZList(faulty), cList(acts), cList(ivs))
 }
 
 func parinitQuant(q int) [][2]int {
@@ -154,9 +210,12 @@ func parinitQuant(q int) [][2]int {
 	return p
 }
 
-func parinitGen(rng *Rng, par bool) (parinitIn, []string) {
+func parinitGen(rng *Rng, par bool, variant int) (parinitIn, []string) {
 	in := parinitIn{Par: par, Scale: 200}
 	n := rng.Range(2, 4)
+	if variant == 1 || variant == 2 {
+		n = rng.Range(3, 4)
+	}
 	tags := []string{"fans=" + itoa(n)}
 	if par {
 		tags = append(tags, "parallel")
@@ -164,8 +223,9 @@ func parinitGen(rng *Rng, par bool) (parinitIn, []string) {
 		tags = append(tags, "sequential")
 	}
 	for id := 1; id <= n; id++ {
+		q := rng.Pick([]int{32, 51, 64, 85})
 		f := startupFanSpec{Id: id, Kind: "hwmon", PwmReadable: true, Rpm: true,
-			Dev:      parinitQuant(rng.Pick([]int{32, 51, 64, 85})),
+			Dev:      parinitQuant(q),
 			SettleMs: rng.Pick([]int{0, 1500, 3000, 6000}),
 			DelayMs:  rng.Pick([]int{0, 0, 300, 1000, 2600, 4000})}
 		switch rng.Intn(8) {
@@ -185,6 +245,53 @@ func parinitGen(rng *Rng, par bool) (parinitIn, []string) {
 			tags = append(tags, "sweep+measure")
 		}
 		in.Fans = append(in.Fans, f)
+	}
+	switch variant {
+	case 1:
+		// the analysis of the first fan to start FAILS midway while the others are queued behind it
+		f := &in.Fans[0]
+		f.Kind, f.DelayMs = "hwmon", 0
+		in.Db = nil
+		for i := 1; i < n; i++ {
+			in.Fans[i].DelayMs = rng.Pick([]int{200, 300, 600})
+		}
+		q := 64
+		f.Dev = parinitQuant(q)
+		if rng.Bool() {
+			// sweep = 256 writes + 1 (start PWM), the measurement loop's second write fails
+			f.Fault, f.FaultArg = "pwm-write", 259
+			tags = append(tags, "fault-pwm-write")
+		} else {
+			// RPM reads fail once the measurement loop has reached the third level
+			f.Fault, f.FaultArg = "rpm-read", 2*q
+			tags = append(tags, "fault-rpm-read")
+		}
+	case 2:
+		// an already analysed fan starts first and fails in its control loop right after start,
+		// while the next fan is being analysed and the others are queued
+		f := &in.Fans[0]
+		f.Kind, f.DelayMs, f.Fault = "hwmon", 0, "ctl"
+		in.Db = nil
+		ent := startupDbEntry{Id: f.Id, Data: true, HasMap: true}
+		for w := 0; w <= 255; w++ {
+			ent.Map = append(ent.Map, [2]int{w, startupDevApply(f.Dev, w)})
+		}
+		in.Db = append(in.Db, ent)
+		for i := 1; i < n; i++ {
+			in.Fans[i].Kind = "hwmon"
+			in.Fans[i].DelayMs = rng.Pick([]int{200, 300, 600})
+		}
+		tags = append(tags, "fault-control-loop")
+	case 3:
+		// very different settle times: one slow-settling fan, fanResponseDelay 0 or 1
+		frd := rng.Intn(2)
+		in.Frd = &frd
+		k := rng.Intn(n)
+		in.Fans[k].Kind = "hwmon"
+		in.Fans[k].SettleMs = rng.Pick([]int{30000, 45000, 60000})
+		in.Fans[k].DelayMs = 0
+		in.Db = nil
+		tags = append(tags, "slow-settling", "frd="+itoa(frd))
 	}
 	return in, tags
 }
@@ -220,9 +327,18 @@ func init() {
 		if !ctx.Quick() {
 			n = ctx.Param("n", 300)
 		}
+		special := 0
 		for i := 0; i < n; i++ {
 			// two thirds with parallel initialisation disabled
-			in, tags := parinitGen(rng, i%3 == 2)
+			// two thirds with parallel initialisation disabled; every second sequential case carries a fault
+			// (failing analysis, failing control loop) or a slow-settling fan
+			par := i%3 == 2
+			variant := 0
+			if !par && i%2 == 0 {
+				variant = 1 + special%3
+				special++
+			}
+			in, tags := parinitGen(rng, par, variant)
 			emit(in, tags...)
 		}
 	}
